@@ -39,6 +39,29 @@ Proof.
            html_eof_ok_all html_eof_notag_all html_eof_depth_all html_noeof_all fuel inj chunks m [] HI HK Hf HD (Forall_nil _)).
 Qed.
 
+(* all input is consumed: feed() answering "done" leaves the queue empty; also for the driver's feed loop with script
+   pauses and injected text *)
+Lemma html_feed_consumes fuel m :
+  HtmlTI m -> HtmlK m -> (html_fuel (html_unread m) <= fuel)%nat ->
+  snd (feed [] fq_next fq_peek (@app N) (fun q => q) fq_run1 html_flavour true html_table simd ent c1 sk fuel m) = SSuspend ->
+  mq (fst (feed [] fq_next fq_peek (@app N) (fun q => q) fq_run1 html_flavour true html_table simd ent c1 sk fuel m)) = [].
+Proof.
+  intros HI HK Hf.
+  exact (feed_consumes html_flavour html_table simd ent c1 sk eq_refl html_state_ok_all eq_refl eq_refl Hsk
+           html_clean html_rank 4 html_rank_le html_eat_clean_all html_start_ok_all html_progress_all
+           html_noeof_all fuel m HI HK Hf).
+Qed.
+Lemma html_feed_loop_consumes fuel inj n m log :
+  HtmlTI m -> HtmlK m -> (html_fuel (html_unread m + n * length inj) <= fuel)%nat ->
+  let r := feed_loop [] fq_next fq_peek (@app N) (fun q => q) fq_run1 html_flavour true html_table simd ent c1 sk n fuel inj m log in
+  hd (SPanic 0) (snd r) = SSuspend -> mq (fst r) = [].
+Proof.
+  intros HI HK Hf.
+  exact (feed_loop_consumes html_flavour html_table simd ent c1 sk eq_refl html_state_ok_all eq_refl eq_refl Hsk
+           html_clean html_rank 4 html_rank_le html_eat_clean_all html_start_ok_all html_progress_all
+           html_noeof_all fuel inj n m log HI HK Hf).
+Qed.
+
 (* terminates and never panics: the answer of end() is "done" (or the assert site 4, see NoPanic.v), every feed entry is
    done / script pause / encoding indicator, or the driver model's pause limit 96 *)
 Lemma html_tokenizer_total fuel inj chunks s0 last :
